@@ -1,13 +1,15 @@
 import MocModel.Drv.C02
 import MocModel.Drv.Mw
 import MocModel.Drv.Prom
+import MocModel.Drv.Http
 open Moc.Drv
 
 def handlers : List (String × Handler) := [
   ("C02", C02.handler),
   ("C17", MwD.handler),
   ("C18", MwD.handler),
-  ("C19", PromD.handler)
+  ("C19", PromD.handler),
+  ("C20", HttpD.handler)
 ]
 
 def main (args : List String) : IO UInt32 := do
